@@ -1,7 +1,7 @@
 """Registry: obligation id -> spec, property id -> obligations it is decided by."""
-from . import uni, out, io, tok, nl, cfg
+from . import uni, out, io, tok, nl, cfg, sp
 
-MODS = (uni, out, io, tok, nl, cfg)
+MODS = (uni, out, io, tok, nl, cfg, sp)
 OBLIGATIONS = {}
 for mod in MODS:
     for ob in mod.OBLIGATIONS:
